@@ -7,12 +7,31 @@ import sys
 VERIF = os.path.realpath(os.path.join(os.path.dirname(__file__), ".."))
 
 # id -> (built?, technique, level text, level note, design ref)
+TB = ("Trusts the harness's own bookkeeping of who waits on what (kept by the program interpreter, never read from the "
+      "kernel's callbacks lists) and that step() processes the head of Environment._queue (peek-mode tracing; cross-checked by "
+      "the resume-source clause).")
+EXPL = ("Generated-input search against an executable oracle; exploration of a universally quantified space, no proof of "
+        "absence. Sensitivity measured by mutants/*.patch (tools/mutate.py).")
+
 CHECKS = {
     "C01": ("Hypothesis-generated kernel programs vs reference agenda (min of pending by due/class/trigger-seq), every step",
-            "Generated-input search (thousands of coincidence-dense process programs per run) against an executable "
-            "reference agenda; no proof of absence - exploration of the program space with a two-directional total-order oracle.",
-            "Trusts that every event reaches the agenda via Environment.schedule (overridden in a tracing subclass) and "
-            "that probes inserted at the head of event.callbacks do not alter kernel behaviour.", "4/C01"),
+            EXPL, "Trusts that every event reaches the agenda via Environment.schedule (overridden in a tracing subclass; the "
+            "run(until=number) stop is announced by the harness) and that step() processes the head of Environment._queue.", "4/C01"),
+    "C02": ("Hypothesis-generated kernel programs; harness bookkeeping of waiters W(E) vs observed invocations/outcomes; "
+            "two-directional unhandled-failure prediction", EXPL, TB, "4/C02"),
+    "C03": ("metamorphic: generated program x generated split plan (run(until=number|event), step) vs one uninterrupted run; "
+            "repeat runs; fresh interpreters under several PYTHONHASHSEED", EXPL, TB, "4/C03"),
+    "C04": ("Hypothesis-generated interrupt-heavy programs; per-victim FIFO bookkeeping, stale-target detection, metamorphic "
+            "re-run without refused interrupts", EXPL, TB, "4/C04"),
+    "C05": ("Hypothesis-generated condition trees over timeouts/events/processes vs a reference evaluator of decision instant, "
+            "value and failure handling", EXPL, TB, "4/C05"),
+    "C06": ("model-based histories (request/release/cancel/with-exit/preempt, grouped per instant) on Resource/"
+            "PriorityResource/PreemptiveResource vs validity predicates over observed grants", EXPL,
+            "Grants are observed as Request events being triggered (schedule hook of an Environment subclass); evictions as "
+            "Interruption events carrying Preempted.", "4/C06"),
+    "C20": ("differential RealtimeEnvironment vs Environment on generated programs under a virtual wall clock; two-directional "
+            "strict-mode prediction; never-early check at every occurrence", EXPL,
+            "onl.sim.rt.monotonic/sleep are replaced by a scripted virtual clock; probes at the head of event.callbacks.", "4/C20"),
 }
 
 PENDING_REASON = "check not built yet in this revision (planned; see DESIGN.md section 4)"
